@@ -246,6 +246,26 @@ def cfg_for_spec(eff):
     }
 
 
+def raw_for_spec(raw):
+    """the raw configuration as a record for Config.tla (omitted options stay visible as such)"""
+    raw = raw if isinstance(raw, dict) else {}
+
+    def b(k):
+        return "omitted" if k not in raw or raw[k] is None else ("true" if raw[k] else "false")
+    ms = raw.get("csiMethods")
+    return {
+        "chain": b("chainSourceMap"), "comments": b("comments"), "literals": b("literals"),
+        "prefix_given": raw.get("localVarPrefix") is not None, "prefix": str(raw.get("localVarPrefix") or ""),
+        "verbosity_given": raw.get("telemetryVerbosity") is not None,
+        "verbosity_upper": str(raw.get("telemetryVerbosity") or "").upper(),
+        "methods_given": ms is not None,
+        "methods": [{"src": m["src"], "dst_given": m.get("dst") is not None, "dst": str(m.get("dst") or ""),
+                     "operator": "omitted" if m.get("operator") is None else ("true" if m["operator"] else "false"),
+                     "awc": "omitted" if m.get("allowedWithoutCallee") is None else ("true" if m["allowedWithoutCallee"] else "false")}
+                    for m in (ms or [])],
+    }
+
+
 def static_record(rid, req, resp, with_pos=True):
     """trace record for TraceStatic.tla from one driver response (needs in_ast, out_ast, effective_config)"""
     rec = {"rid": rid, "outcome": resp.get("outcome", "abort"), "error": str(resp.get("error") or ""), "refused": False}
@@ -291,6 +311,8 @@ def static_record(rid, req, resp, with_pos=True):
         "has_debug": dbg is not None,
         "debug": [{"tag": k, "n": int(v)} for k, v in sorted((dbg or {}).items())],
         "in_mentions_ns": "_ddiast" in code,
+        "raw": raw_for_spec(req.get("config")),
+        "prefix_six_lower": bool(re.fullmatch(r"[a-z]{6}", eff["localVarPrefix"])),
         # C14: the literal report, flattened to one entry per reported location
         "has_literals": resp.get("literals") is not None,
         "literal_values": [x["value"] for x in (resp.get("literals") or {}).get("literals", [])],
